@@ -66,6 +66,29 @@ func DefaultStreamOpts() StreamOpts {
 	}
 }
 
+// LocalTimeOpts restricts o to a stream of the messages that carry local times
+// (and a timestamp to refer to), so that one Decode call meets several local
+// times with equal, zero and different offsets from the reference.
+func LocalTimeOpts(d D, o *StreamOpts) {
+	ft := []fit.FileType{fit.FileTypeActivity, fit.FileTypeMonitoringA, fit.FileTypeMonitoringB, fit.FileTypeSchedules}[d.Int(0, 3, "ltft")]
+	o.FileType = int(ft)
+	o.Msgs = nil
+	tab := prof.Table()
+	for _, m := range prof.HostedMsgs(ft) {
+		for _, fi := range tab.Msgs[m].Fields {
+			if m != 0 && fi.Kind == fitmodel.KindTimeLocal {
+				o.Msgs = append(o.Msgs, m)
+				break
+			}
+		}
+	}
+	o.TimeBias = true
+	o.Unhosted = false
+	o.ExtraFileIds = false
+	o.MaxFields = 3
+	o.MinRecs, o.MaxRecs = 4, 30
+}
+
 // GenInfo describes a generated stream for labelling.
 type GenInfo struct {
 	FileType fit.FileType
